@@ -15,7 +15,30 @@ from harness.runner import Check
 use_repo()
 
 TOP_OPS = ["bounds", "tighten", "complete", "valid", "edits", "nonzero"]
-OPS = TOP_OPS + ["sub." + o for o in TOP_OPS]
+# "pairs": a client that inspects candidate pairings itself - it creates further edits between the members of the two
+# documents (TreeNode.edits on every pair of children), refines each completely and lists it.  These are OTHER edit objects
+# over the same trees; what they leave behind must not change what the edit under observation reports.
+OPS = TOP_OPS + ["sub." + o for o in TOP_OPS] + ["pairs"]
+
+
+def other_edits(a, b):
+    try:
+        xs, ys = list(a.children())[:4], list(b.children())[:4]
+    except Exception:
+        return
+    for x in xs:
+        for y in ys:
+            try:
+                e = x.edits(y)
+            except Exception:
+                continue            # e.g. key/value pairs with different keys under -k: no edit exists for that pair
+            e.bounds()
+            n = 0
+            while e.tighten_bounds() and n < 5000:
+                n += 1
+            e.is_complete()
+            if hasattr(e, "edits"):
+                list(e.edits())
 
 
 def apply_op(edit, op):
@@ -77,7 +100,9 @@ def run_history(case, salt, ops, quiet, color):
         with deadline(10.0):
             edit = a.edits(b)
             for op in ops:
-                if op.startswith("sub."):
+                if op == "pairs":
+                    other_edits(a, b)
+                elif op.startswith("sub."):
                     for s in known_sub_edits(edit):
                         apply_op(s, op[4:])
                 else:
@@ -132,7 +157,9 @@ def pick_cases(n, salt):
         cases.append(c)
         if len(cases) >= n:
             break
-    return cases
+    # every history of a case runs in ONE process, one after the other, on trees rebuilt from the same documents: whatever an
+    # earlier edit of the same strings leaves behind in the process is part of "how the API was driven"
+    return cases + corpus.gen_cases("rekeyed", max(n // 3, 8), salt)
 
 
 def run():
@@ -148,7 +175,7 @@ def run():
     cfg = tlc.cfg_text(spec="GenSpec", constants={"Ops": set(OPS), "MaxOps": depth_full, "Results": {"r"}},
                        invariants=["Emit"])
     res = tlc.run_tlc("EditApiGen", cfg, workers=1, timeout=600, name="EditApiGen")
-    chk.add_tlc(res, "EditApiGen", "enumeration of all histories over 12 operations up to length %d" % depth_full)
+    chk.add_tlc(res, "EditApiGen", "enumeration of all histories over 13 operations up to length %d" % depth_full)
     full = [h for h in res.printed if isinstance(h, list)]
     if len(full) < 13:
         raise MachineryError("history generator produced %d histories" % len(full))
@@ -168,12 +195,12 @@ def run():
             seen.add(k)
             long_hists.append(h)
     chk.extra["histories_simulated_by_tlc"] = len(long_hists)
-    # histories over a 5-operation core alphabet, exhaustively to depth 4 (list sub-edits, query, refine a sub-edit,
+    # histories over a 6-operation core alphabet, exhaustively to depth 4 (list sub-edits, query, refine a sub-edit,
     # refine the parent: the orders in which caches and lazily expanded iterators can go stale)
-    core = ["edits", "bounds", "tighten", "sub.tighten", "sub.edits"]
+    core = ["edits", "bounds", "tighten", "sub.tighten", "sub.edits", "pairs"]
     cfg = tlc.cfg_text(spec="GenSpec", constants={"Ops": set(core), "MaxOps": 4, "Results": {"r"}}, invariants=["Emit"])
     res = tlc.run_tlc("EditApiGen", cfg, workers=1, timeout=600, name="EditApiGen-core")
-    chk.add_tlc(res, "EditApiGen", "enumeration of all histories over the 5-operation core alphabet up to length 4")
+    chk.add_tlc(res, "EditApiGen", "enumeration of all histories over the 6-operation core alphabet up to length 4")
     core_hists = [h for h in res.printed if isinstance(h, list) and len(h) >= 3]
     chk.extra["core_histories_enumerated_by_tlc"] = len(core_hists)
     # 2. replay on the real code
@@ -300,13 +327,18 @@ def run():
         behs, res = _coll.generate(config, num, 6)
         chk.add_tlc(res, "CollectionGen", "simulation of behaviours of the EditCollection model (%s)" % config)
         for b in behs:
-            drift, obs = _coll.replay(b)
-            n_cb += 1
-            if drift:
-                cdrift += 1
-                if len(chk.drift) < 8:
-                    chk.drift.append("Collection.tla %s: %s (environment %s, operations %s)" % (config, drift[0], obs["env"][:200], obs["ops"]))
-            coll_groups.setdefault((config, obs["env"]), []).append(obs)
+            # the model never consults is_complete() of a sub-edit: each behaviour is replayed over sub-edits with the default
+            # answer and over sub-edits that claim to be complete from the start
+            for early in (False, True):
+                drift, obs = _coll.replay(b, early)
+                n_cb += 1
+                if drift:
+                    cdrift += 1
+                    if len(chk.drift) < 8:
+                        chk.drift.append("Collection.tla %s%s: %s (environment %s, operations %s)" % (
+                            config, " (sub-edits complete early)" if early else "", drift[0], obs["env"][:200], obs["ops"]))
+                # a group = one environment: histories over early-complete sub-edits are compared among themselves
+                coll_groups.setdefault((config + ("/early-complete" if early else ""), obs["env"]), []).append(obs)
     chk.extra["editcollection_model_behaviours_replayed"] = n_cb
     chk.extra["editcollection_model_behaviours_with_drift"] = cdrift
     ckeys = sorted(coll_groups)
@@ -324,9 +356,47 @@ def run():
             chk.violation(sig, {"config": k[0], "env": json.loads(k[1]), "ops": o["ops"]},
                           "EditSequence over scripted sub-edits %s: operations %s end with %s %s, the first history with %s" % (
                               k[1][:300], o["ops"], o["out"], o["exc"], coll_groups[k][0]["out"]))
+    # 5. the mechanism model of the compound edits with sub-edits fixed at construction: KeyValuePairEdit / XMLElementEdit /
+    # FixedLengthSequenceEdit (spec/Compound.tla)
+    from props import _compound
+    _compound.model_check(chk, t)
+    cmp_groups = {}
+    n_pb = pdrift = 0
+    for config, num in ((("kvp", 120), ("xml", 120), ("xmlnt", 80), ("seq+2", 80), ("seq-1", 60)) if t == "quick" else
+                        (("kvp", 800), ("kvp3", 800), ("xml", 1000), ("xmlnt", 800), ("xml2", 1000), ("seq0", 600), ("seq+2", 800),
+                         ("seq-1", 800))):
+        behs, res = _compound.generate(config, num, 6)
+        chk.add_tlc(res, "CompoundGen", "simulation of behaviours of the KeyValuePairEdit / XMLElementEdit / FixedLengthSequenceEdit model (%s)" % config)
+        for b in behs:
+            drift, obs = _compound.replay(b)
+            n_pb += 1
+            if drift:
+                pdrift += 1
+                if len(chk.drift) < 8:
+                    chk.drift.append("Compound.tla %s: %s (environment %s, operations %s)" % (config, drift[0], obs["env"][:200], obs["ops"]))
+            cmp_groups.setdefault((config, obs["env"]), []).append(obs)
+    chk.extra["compound_model_behaviours_replayed"] = n_pb
+    chk.extra["compound_model_behaviours_with_drift"] = pdrift
+    pkeys = sorted(cmp_groups)
+    ptraces = [{"ev": [{"ops": o["ops"], "raised": o["raised"], "out": o["out"]} for o in cmp_groups[k]]} for k in pkeys]
+    pverdicts, pst = tlc.validate_traces("EditApiTrace", ptraces, constants={"Ops": {"x"}, "MaxOps": 1000, "Results": {"r"}},
+                                         name="EditApiTrace-compound")
+    chk.add_trace_stats(pst, "EditApiTrace", sum(len(tr["ev"]) for tr in ptraces))
+    for i, k in enumerate(pkeys, 1):
+        for o in cmp_groups[k]:
+            chk.count(("compound", k[0], k[1], tuple(o["ops"])))
+        v = pverdicts[i]
+        if v["v"] != "ACCEPT":
+            o = cmp_groups[k][v["step"] - 1]
+            sig = {"clause": v["clause"], "kind": "scripted-compound", "exc": o["exc"].split(":")[0]}
+            chk.violation(sig, {"config": k[0], "env": json.loads(k[1]), "ops": o["ops"]},
+                          "%s over scripted sub-edits %s: operations %s end with %s %s, the first history with %s" % (
+                              "KeyValuePairEdit" if k[0].startswith("kvp") else "FixedLengthSequenceEdit" if k[0].startswith("seq")
+                              else "XMLElementEdit", k[1][:300], o["ops"], o["out"], o["exc"],
+                              cmp_groups[k][0]["out"]))
     chk.sample({"case": jobs[0][0], "histories": [e for e in results[0][:6]]})
     chk.sample({"case": jobs[-1][0], "histories": [e for e in results[-1][-3:]]})
-    chk.rule = ("cases = (pair of documents with nested containers, history) where histories are all sequences over 12 "
+    chk.rule = ("cases = (pair of documents with nested containers, history) where histories are all sequences over 13 "
                 "public operations (6 on the top-level edit, 6 on every nested edit currently reachable) up to length %d "
                 "enumerated by TLC plus TLC-simulated ones of length %d, each under a random quiet / colour setting of "
                 "the default printer; after each history the edit is completed canonically and (cost, script digest) "
